@@ -13,9 +13,15 @@ CLAIMS = {
         "irrelevance, sequence rule, output gate) for all dimensions with rational exponents and all value classes; the model "
         "is tied to the code on every run by a correspondence check (thousands of seeded (actual, declared) pairs and generated "
         "guarded functions evaluated by the real validators and by the model inside Coq) and the catalogue's guard table is "
-        "decided exhaustively (kernel-checked table + one refusal probe per function, all guarded parameters in thorough).",
+        "decided exhaustively (kernel-checked table + one refusal probe per function, all guarded parameters in thorough). "
+        "The calls are made directly, from the body of another guarded function, from another thread meanwhile and while another "
+        "guarded function's result is produced; the same argument object is passed for several parameters; arguments and "
+        "declarations include Symbolic wrappers, dimensioned functions, indexed symbols and QuantityVector objects; fixed guarded "
+        "calls whose verdict the property text fixes are run in child interpreters under `python` and `python -O`.",
         "Trusted: Coq kernel + vm_compute; the SymPy->Gallina serialiser (harness/vp/qx.py); dimsys_SI dependency tables; "
-        "inspect.signature.bind modelled for plain parameters. The proof is about the model; the tie is differential testing.",
+        "inspect.signature.bind modelled for plain parameters. The proof is about the model; the tie is differential testing. "
+        "Exponents are exact rationals (SymPy Float exponents are not covered); base dimensions are the seven SI ones plus angle. "
+        "Known finding (not repaired): calculate_non_uniform_rotation_acceleration guards a non-existent parameter.",
         "machine-checked proof (Coq) over an executable model + model/implementation correspondence", "DESIGN.md §6 C04"),
 }
 
